@@ -136,8 +136,8 @@ CHECKS["C09"] = dict(
 
 CHECKS["C10"] = dict(
     title="Partially reduced products: reductions never change the intersection; operations are sound on it",
-    quick=T([("c10_product", 1)], cases=30000, secs=90),
-    thorough=T([("c10_product", 1)], cases=300000, secs=1200, flavour="san"),
+    quick=T([("c10_product", 1)], cases=120000, secs=90),
+    thorough=T([("c10_product", 1)], cases=1500000, secs=1200, flavour="san"),
     rule="case = program over a pool of Partially_Reduced_Product<D1,D2,R> objects for 22 instances (C/NNC polyhedra, BD shapes, octagons, "
          "boxes, grids; No / Smash / Constraints / Congruences / Shape_Preserving reductions), 1-3 dimensions, inconsistent component pairs "
          "generated on purpose; components are read without triggering reduce() through a derived class. Oracle: the intersection of the "
@@ -172,8 +172,8 @@ CHECKS["C11"] = dict(
 
 CHECKS["C17"] = dict(
     title="wrap_assign / drop_some_non_integer_points / contains_integer_point are sound for integer points",
-    quick=T([("c17_wrap", 1)], cases=40000, secs=90),
-    thorough=T([("c17_wrap", 1)], cases=400000, secs=1200, flavour="san"),
+    quick=T([("c17_wrap", 1)], cases=250000, secs=90),
+    thorough=T([("c17_wrap", 1)], cases=3000000, secs=1200, flavour="san"),
     rule="case = object of C/NNC polyhedron, BD_Shape<mpq|int32>, Octagonal_Shape<mpq>, Pointset_Powerset<C_Polyhedron>, Rational/Double box or "
          "Grid over 1-3 dimensions with values straddling the 8/16/32/64-bit ranges; wrap_assign with every width, representation, overflow "
          "mode, optional guard constraints, complexity threshold 0-20, individual/collective wrapping; drop_some_non_integer_points (both "
@@ -292,4 +292,25 @@ CHECKS["C15"] = dict(
     level_note="Matrix<Row>, Bit_Matrix, DB_Matrix, OR_Matrix, Interval and Linear_Form are exercised only through the domains that embed them.",
     design_ref="DESIGN.md 4 C15",
     assumptions=["operator== of the domains is used for the value comparison of original and clone (both are library objects)"],
+)
+
+CHECKS["C20"] = dict(
+    title="C interface mirrors the C++ results, converts every exception to its error code, releases objects once",
+    quick=T([("c20_cint", 1)], cases=1500000, secs=90),
+    thorough=T([("c20_cint", 1)], cases=15000000, secs=1200, flavour="san"),
+    rule="case = program of C entry-point calls on handles (C_Polyhedron, NNC_Polyhedron, Grid, Rational_Box, BD_Shape_mpq_class, "
+         "Octagonal_Shape_mpz_class, Pointset_Powerset_C_Polyhedron, Constraints_Product_C_Polyhedron_Grid, MIP_Problem, PIP_Problem, "
+         "coefficients, linear expressions, constraints/generators/congruences and their systems and iterators, the library-level "
+         "functions) mirrored call by call through the C++ API on twin objects; ill-formed arguments (dimension mismatches, wrong "
+         "topologies, zero divisors, too large dimensions), allocation failure injected at the k-th allocation inside a C call, and "
+         "deterministic timeouts are generated on purpose. Oracle: return values and handle contents (ascii dump through the C dump "
+         "function, getters and iterators) equal the twin's results; a C++ exception in the twin corresponds to the documented negative code "
+         "and one invocation of the registered error handler with that code, with handles left usable and unchanged; no exception crosses "
+         "the boundary; blocks allocated inside C calls are all released after the delete functions ran (allocation accounting); const "
+         "handles keep their dump. Non-trivial: a call reached a C++ operation on a non-empty non-universe operand, or an error path ran.",
+    technique="property-based testing (differential against the wrapped C++ API on twin objects, fault injection on allocation and timeouts, allocation-accounting ownership oracle)",
+    level_text="Generated-program differential exploration of the C entry points against the wrapped C++ operations.",
+    level_note="953 of the 1988 declared entry points are called: the double-based and remaining domain instantiations (generated from the same m4 templates), termination functions, cross-domain constructors and printing to stdout are not.",
+    design_ref="DESIGN.md 4 C20",
+    assumptions=["the entry points of the non-exercised domain instantiations behave like those generated from the same templates for the exercised ones"],
 )
